@@ -176,6 +176,14 @@ fn plain_invariants(obs: &Obs) -> Option<Verdict> {
     } = obs
     {
         let n = versions.len() as u64;
+        if latest_id & (1u64 << 63) != 0 || opened & (1u64 << 63) != 0 {
+            return Some(Verdict {
+                sig: "detached-version-resolved-as-latest".into(),
+                what: format!(
+                    "versions() = {versions:?} but latest_version_id = {latest_id:#x}, open() gave {opened:#x}: a detached commit became the latest version"
+                ),
+            });
+        }
         if !dense(versions) {
             return Some(Verdict {
                 sig: "versions-not-dense".into(),
@@ -386,10 +394,9 @@ async fn scenario(ctx: &Ctx<'_>, idx: u64) {
                     String::new()
                 }
             ));
-            let observed = observe(&env.proc(50 + step_no), &env.world, URI).await;
-            let (obs, extra) = match observed {
-                Ok(x) => x,
-                Err(e) => {
+            let (obs, extra) = match observe_guarded(&env.proc(50 + step_no), &env.world, URI).await {
+                Seen::Ok(o, x) => (o, x),
+                Seen::Unreadable(e) => {
                     report.violation(
                         "plain-history-table-unreadable",
                         "after a fault-free operation the table cannot be read back",
@@ -397,8 +404,31 @@ async fn scenario(ctx: &Ctx<'_>, idx: u64) {
                     );
                     return;
                 }
+                Seen::Panic { msg, sig } => {
+                    report.violation(
+                        &sig,
+                        "after a fault-free operation a fresh reader panics inside Lance while opening the table",
+                        json!({"base": witness_base(ctx, idx, handler, &history, &op), "panic": msg,
+                               "versions_dir": env.world.list_paths().await.into_iter().filter(|p| p.contains("/_versions/")).collect::<Vec<_>>()}),
+                    );
+                    report.count("scenarios_ended_by_reader_panic", 1);
+                    return;
+                }
+                Seen::Timeout => {
+                    report.inconclusive(&format!("case {idx}: observer timed out"));
+                    return;
+                }
             };
             report.count("history_steps_checked", 1);
+            if let Some(o) = obs.latest_obs() {
+                if o.duplicate_ids() > 0 {
+                    // not a C01 matter (row-level semantics of merge_insert); reported in NOTES.md
+                    report.count("diagnostic_duplicate_primary_keys_after_step", 1);
+                    if ctx.verbose {
+                        eprintln!("case {idx}: duplicate ids after {}", op.describe());
+                    }
+                }
+            }
             if let Some(v) = plain_invariants(&obs) {
                 report.violation(
                     &v.sig,
@@ -553,14 +583,34 @@ async fn scenario(ctx: &Ctx<'_>, idx: u64) {
     let m = w.actor.store.mutating_calls();
     let dry_events = env_d.world.events();
     let dry_ext = env_d.ext.events();
-    let (post, post_extra) = match observe(&env_d.proc(2), &env_d.world, URI).await {
-        Ok(x) => x,
-        Err(e) => {
+    let (post, post_extra) = match observe_guarded(&env_d.proc(2), &env_d.world, URI).await {
+        Seen::Ok(o, x) => (o, x),
+        Seen::Unreadable(e) => {
             report.violation(
                 "plain-history-table-unreadable",
                 "after a fault-free operation the table cannot be read back",
                 json!({"base": witness_base(ctx, idx, handler, &history, &final_op), "error": e}),
             );
+            return;
+        }
+        Seen::Panic { msg, sig } => {
+            report.violation(
+                &sig,
+                "after a fault-free operation a fresh reader panics inside Lance while opening the table",
+                json!({"base": witness_base(ctx, idx, handler, &history, &final_op), "panic": msg,
+                       "versions_dir": env_d.world.list_paths().await.into_iter().filter(|p| p.contains("/_versions/")).collect::<Vec<_>>()}),
+            );
+            if final_op.is_detached() && res.is_ok() && sig == SIG_DETACHED_PANIC {
+                // the admissible reader state of a detached commit is the pre-state in any case:
+                // keep enumerating its crash points against that
+                (pre.clone(), None)
+            } else {
+                report.count("scenarios_ended_by_reader_panic", 1);
+                return;
+            }
+        }
+        Seen::Timeout => {
+            report.inconclusive(&format!("case {idx}: observer timed out"));
             return;
         }
     };
@@ -776,11 +826,10 @@ async fn scenario(ctx: &Ctx<'_>, idx: u64) {
                 "replay_crash": format!("--case {idx} (crash point {cp:?})"),
             })
         };
-        let observed = observe(&env_c.proc(2), &env_c.world, URI).await;
         let class = format!("{}/{}/{}", handler.name(), final_op.kind(), cp.fault_name());
-        let (obs, extra) = match observed {
-            Ok(x) => x,
-            Err(e) => {
+        let (obs, extra) = match observe_guarded(&env_c.proc(2), &env_c.world, URI).await {
+            Seen::Ok(o, x) => (o, x),
+            Seen::Unreadable(e) => {
                 report.violation(
                     &format!("reopen-failed-after-crash:{class}"),
                     "after a crashed write a freshly started reader cannot read the table",
@@ -789,12 +838,27 @@ async fn scenario(ctx: &Ctx<'_>, idx: u64) {
                 report.case(Some(fnv(format!("{class}|{label}|{shape_brief}").as_bytes())));
                 continue;
             }
+            Seen::Panic { msg, sig } => {
+                let sig = if sig == SIG_DETACHED_PANIC { sig } else { format!("{sig}:{class}") };
+                report.violation(
+                    &sig,
+                    "after a crashed write a freshly started reader panics inside Lance while opening the table",
+                    wit(json!({"panic": msg})),
+                );
+                report.count("crash_runs_reader_panicked", 1);
+                report.case(Some(fnv(format!("{class}|{label}|{shape_brief}").as_bytes())));
+                continue;
+            }
+            Seen::Timeout => {
+                report.inconclusive(&format!("case {idx}: observer timed out after crash point {label}"));
+                continue;
+            }
         };
         report.count("crash_runs", 1);
         ctx.bump(format!("crash_runs.{}.{}", handler.name(), final_op.kind()), 1);
         if let Obs::Table { per_version, .. } = &obs {
             report.count("versions_compared", per_version.len() as u64);
-            report.count("rows_compared", per_version.values().map(|v| v.rows.len() as u64).sum());
+            report.count("rows_compared", per_version.values().map(|v| v.n_rows() as u64).sum());
         }
         if hole {
             report.violation(
@@ -959,7 +1023,7 @@ fn selftest(args: &Args) -> i32 {
         if let Obs::Table { per_version, .. } = &mut o {
             let v = per_version.get_mut(&1).unwrap();
             let k = *v.rows.keys().next().unwrap();
-            v.rows.get_mut(&k).unwrap()[0] = vmon::table::Cell::Int(-77);
+            v.rows.get_mut(&k).unwrap()[0][0] = vmon::table::Cell::Int(-77);
         }
         if judge(&st, &o, 0, false, None).is_none() {
             fails.push("changed cell not flagged");
@@ -1016,7 +1080,7 @@ pub fn run(args: &Args) -> i32 {
     report.assume("a crash is modelled at storage-call granularity: the k-th mutating call (and every later call) of the writer fails, with the effect of call k either lost or applied");
     report.assume("the lock of the lock-based handler and the external manifest store are harness mocks (in-process, linearizable); only Lance's use of them is under test");
     let single: Option<u64> = args.extra.get("case").and_then(|s| s.parse().ok());
-    let max_cases: u64 = args.tier.pick(600, 60_000);
+    let max_cases: u64 = args.tier.pick(20_000, 1_000_000);
     let next = AtomicU64::new(0);
     let threads = if single.is_some() { 1 } else { 16 };
     run_threads(threads, |_| {
